@@ -55,8 +55,12 @@ def parse_cardinality(val):
         min_val = parsed_vals[0].strip()
         max_val = parsed_vals[1].strip()
 
-        min_int = min_val.isdecimal() and int(min_val) >= 0
-        max_int = max_val.isdecimal() and int(max_val) >= 0
+        # int() refuses text with more digits than sys.get_int_max_str_digits()
+        try:
+            min_int = min_val.isdecimal() and int(min_val) >= 0
+            max_int = max_val.isdecimal() and int(max_val) >= 0
+        except ValueError:
+            return None
 
         if min_int and max_int and int(max_val) >= int(min_val):
             return int(min_val), int(max_val)
